@@ -49,6 +49,11 @@ impl Entry {
 /// Run one search with a recorder installed; `stop_at` = clear the running flag at the
 /// k-th write (1-based).
 pub fn logged_search(board: &Board, depth: u8, limits: Option<SearchLimits>, stop_at: Option<u64>) -> (Vec<Entry>, srch::SearchResult) {
+    logged_search_async(board, depth, limits, stop_at, None)
+}
+
+/// `async_stop_ns` = a second thread clears the running flag after spinning that long.
+pub fn logged_search_async(board: &Board, depth: u8, limits: Option<SearchLimits>, stop_at: Option<u64>, async_stop_ns: Option<u64>) -> (Vec<Entry>, srch::SearchResult) {
     let log: Arc<Mutex<Vec<Entry>>> = Arc::new(Mutex::new(vec![]));
     let l2 = log.clone();
     let count = AtomicU64::new(0);
@@ -75,7 +80,21 @@ pub fn logged_search(board: &Board, depth: u8, limits: Option<SearchLimits>, sto
     })));
     srch::set_tt_off(false);
     srch::clear_tt();
-    let res = srch::run_search(board, Some(depth), limits);
+    let mut stopper: Option<std::thread::JoinHandle<()>> = None;
+    let res = srch::run_search_with(board, Some(depth), limits, |running| {
+        if let Some(ns) = async_stop_ns {
+            stopper = Some(std::thread::spawn(move || {
+                let t = std::time::Instant::now();
+                while (t.elapsed().as_nanos() as u64) < ns {
+                    std::hint::spin_loop();
+                }
+                running.store(false, Ordering::Relaxed);
+            }));
+        }
+    });
+    if let Some(h) = stopper {
+        let _ = h.join();
+    }
     verif_hooks::set_recorder(None);
     // what the cache really holds at the end (catches writes that bypass the insert sites)
     let mut table: Vec<(u64, i16, u8, u8, String)> = TRANSPOSITION_TABLE
@@ -152,6 +171,7 @@ pub fn judge(w: &[Entry], l: &[Entry], fen: &str, depth: u8, cut: &str, n: u64) 
                 let trig = match cut {
                     "nodes" => "node-budget",
                     "stop" => "stop-at-write",
+                    "async-stop" => "stop-from-another-thread",
                     "clock" => "game-clock",
                     _ => "movetime",
                 };
@@ -280,6 +300,48 @@ pub fn run(ctx: &Ctx) -> Report {
         }
         enumerate(&p.to_fen(), *d, max_full, rep, ctx)
     });
+    // stops that arrive from ANOTHER thread at an arbitrary moment (not at a cache write, not at
+    // a node count): a second thread clears the running flag after spinning a generated time
+    // between 0 and the duration of the uninterrupted search.  Whatever the moment, the log of
+    // the interrupted run must be a prefix of the uninterrupted one.  (The moment is real time,
+    // so a replay re-draws it; the oracle holds for every moment.)
+    {
+        let trials = ctx.tier.pick(9600u32, 160_000) / ctx.shard_count() as u32;
+        let pool: Vec<&String> = sparse.iter().take(48).copied().collect();
+        if !pool.is_empty() {
+            let per_pos = 60u32;
+            let mut done = 0u32;
+            let mut k = ctx.shard_index();
+            while done < trials {
+                let fen = pool[k % pool.len()];
+                k += ctx.shard_count();
+                let Ok(board) = guard(|| Board::from_fen(fen)) else { continue };
+                let d = 3u8;
+                let t0 = std::time::Instant::now();
+                let (w, full) = logged_search(&board, d, None, None);
+                let dur = t0.elapsed().as_nanos() as u64;
+                if full.panicked.is_some() || w.len() < 4 {
+                    done += 1;
+                    continue;
+                }
+                let strat = proptest::collection::vec(any::<u16>(), 2);
+                let fen2 = fen.to_string();
+                run_prop(ctx, &format!("c13-async-{k}"), per_pos, 0, strat, &mut rep, |ent, rep| {
+                    let frac = (ent[0] as u64) << 16 | ent[1] as u64;
+                    let ns = dur * frac / (1u64 << 32);
+                    let (l, _r) = logged_search_async(&board, d, None, None, Some(ns));
+                    rep.eval(1);
+                    rep.class("cut:async-stop");
+                    if l.len() < w.len() {
+                        rep.class("cut:async-stop:landed-inside-the-search");
+                        rep.nontrivial(o::hash_str(&format!("{fen2}|{d}|async{}", l.len())));
+                    }
+                    judge(&w, &l, &fen2, d, "async-stop", ns).and_then(|_| judge_table(&l, &fen2, d, "async-stop", ns))
+                });
+                done += per_pos;
+            }
+        }
+    }
     // a few clock-cut runs on larger searches (cut point depends on timing; the oracle
     // holds for any cut)
     // movetime and game-clock cuts (wtime/btime end the search through the time-management
@@ -339,6 +401,22 @@ pub fn replay(_ctx: &Ctx, case: &Value) -> Report {
         rep.infra_errors.push("bad fen".into());
         return rep;
     };
+    if cut == "async-stop" {
+        // the moment of an asynchronous stop cannot be reproduced; sweep the whole duration instead
+        let t0 = std::time::Instant::now();
+        let (w, _) = logged_search(&board, depth, None, None);
+        let dur = t0.elapsed().as_nanos() as u64;
+        for i in 0..6000u64 {
+            let ns = dur * (i % 3000) / 3000;
+            let (l, _) = logged_search_async(&board, depth, None, None, Some(ns));
+            rep.eval(1);
+            if let Err(v) = judge(&w, &l, fen, depth, cut, ns).and_then(|_| judge_table(&l, fen, depth, cut, ns)) {
+                rep.violation(v);
+                break;
+            }
+        }
+        return rep;
+    }
     let (w, _) = logged_search(&board, depth, None, None);
     let (l, _) = match cut {
         "nodes" => logged_search(&board, depth, Some(SearchLimits::new().nodes(Some(n))), None),
@@ -354,7 +432,7 @@ pub fn replay(_ctx: &Ctx, case: &Value) -> Report {
 }
 
 pub const LEVEL: &str = "fault_enumeration";
-pub const RULE: &str = "for each (position, depth 2-3, and depth 4 for a few) - sparse corpus positions and proptest-synthesised sparse positions - the uninterrupted search's cache-write log W (hook H2: key, stored entry read back from the table, node counter) is recorded, then the search is re-run with EVERY node budget N = 1..S (S = nodes of the full search; all of them while S <= 1500 quick / 6000 thorough, an evenly strided sample beyond), with stop injected at the k-th cache write for every k, and with movetime 1-5 ms and game clocks of 20-100 ms (wtime/btime: the time-management timer) on a larger search per shard; cache cleared before each run. Oracle: the interrupted run's log is an element-wise equal (entry and node counter) prefix of W, and under a budget N no write carries a node counter >= N; and the cache contents left behind (read back in full) equal what the run's own write log implies (last write per key), so in-place modifications and writes that bypass the three insert sites are seen too. Non-trivial = a cut strictly inside the search with at least one write of W still pending above it; distinct by (position, depth, cut). exhaustive=true when every position had all its budgets run.";
+pub const RULE: &str = "for each (position, depth 2-3, and depth 4 for a few) - sparse corpus positions and proptest-synthesised sparse positions - the uninterrupted search's cache-write log W (hook H2: key, stored entry read back from the table, node counter) is recorded, then the search is re-run with EVERY node budget N = 1..S (S = nodes of the full search; all of them while S <= 1500 quick / 6000 thorough, an evenly strided sample beyond), with stop injected at the k-th cache write for every k, and with movetime 1-5 ms and game clocks of 20-100 ms (wtime/btime: the time-management timer) on a larger search per shard, and with stops that arrive from ANOTHER thread at a generated moment between 0 and the duration of the uninterrupted search (9600 quick / 160000 thorough trials over 48 sparse positions at depth 3; the moment is real time, the oracle holds for every moment); cache cleared before each run. Oracle: the interrupted run's log is an element-wise equal (entry and node counter) prefix of W, and under a budget N no write carries a node counter >= N; and the cache contents left behind (read back in full) equal what the run's own write log implies (last write per key), so in-place modifications and writes that bypass the three insert sites are seen too. Non-trivial = a cut strictly inside the search with at least one write of W still pending above it; distinct by (position, depth, cut). exhaustive=true when every position had all its budgets run.";
 pub const ASSUMPTIONS: &[&str] = &[
     "the search is deterministic (C16) and limits are only read, so until the cut the interrupted run executes what the uninterrupted run does",
     "hook H2 reports every cache insert (three sites in src/search.rs); writes elsewhere are caught by comparing the final cache contents with the write log",
